@@ -103,6 +103,9 @@ def check_program(ctx, name, prog, built, results):
             ctx.count("depth:%d" % len(c.links))
             if c.lit:
                 ctx.count("literal_operand_runs")
+            if be == "boots":
+                ctx.count("boots_force_inlined_links", sum(1 for l in c.links if l.shape.endswith("_force")))
+                ctx.count("boots_never_inlined_links", sum(1 for l in c.links if l.shape.endswith("_never")))
             ctx.observe((kind, shape, pos, be))
             err = o.stderr.decode("utf-8", "replace")
             out = o.stdout.decode("utf-8", "replace")
@@ -181,8 +184,19 @@ def check_program(ctx, name, prog, built, results):
             ctx.sample(d, limit=6)
 
 
+def remove_executables(d):
+    """The executables are 11 MB each: keep only the sources in the scratch directory."""
+    for f in os.listdir(d):
+        if not f.endswith(".dora"):
+            try:
+                os.unlink(os.path.join(d, f))
+            except OSError:
+                pass
+
+
 def run(ctx):
     build.ensure_toolchain("rel")
+    d = None
     nprog = int(ctx.opts.get("programs", ctx.pick(10, 100)))
     ncases = int(ctx.opts.get("cases", 36))
     ctx.rule = ("case = one generated function chain (1-5 links of callee shapes) in which exactly one operation of a chosen trap kind fails at a "
@@ -215,6 +229,8 @@ def run(ctx):
         results = dict(progrun.run_cases(jobs, timeout=120))
         for name, p in part:
             check_program(ctx, name, p, built, results)
+    if d and not ctx.violations:
+        remove_executables(d)
     ctx.extra["trap_kinds_not_reachable_from_source"] = trapgen.UNREACHABLE_KINDS
     ctx.extra["collectors"] = list(GCS)
     ctx.required_counters = ["control_runs", "report_comparisons", "stdout_final_partial_line_cases", "stdout_over_8k_cases",
